@@ -4,6 +4,7 @@ import (
 	"fmt"
 	"go/constant"
 	"go/token"
+	"os"
 	"strings"
 
 	"golang.org/x/tools/go/ssa"
@@ -592,9 +593,17 @@ func ruleC02Keys(c *Ctx) {
 				continue
 			}
 			nT++
+			if os.Getenv("GENQLCHECK_DEBUG") != "" {
+				fmt.Println("DEBUG c02.keys key:", nonEmpty, ks)
+			}
 			usesAs := strings.Contains(ks, ".As") && !strings.Contains(ks, "ColumnName(")
 			if usesAs != nonEmpty {
 				okT, whyT = false, fmt.Sprintf("with alias non-empty=%v the row is keyed by %s", nonEmpty, ks)
+			}
+			// the name of an unaliased item is the parser's name of that item (the last component of a dotted reference):
+			// a name rebuilt from the parts of the reference changes the key of `SELECT a.b.c` only
+			if !usesAs && !strings.HasPrefix(ks, "(*sqlparser.AliasedExpr).ColumnName(") {
+				okT, whyT = false, "an unaliased item is keyed by "+ks+", not by the parser's ColumnName() of the item"
 			}
 		}
 	}
